@@ -103,10 +103,31 @@ class Run:
         self.queues = {}
         self.driver = None
         self.closed_seqs = {}
+        self.lost_at = -1.0
+        self.returned_in_time = True
 
     # -- environment -------------------------------------------------------------------------
     def boundary(self, loop, timeout):
         now = loop.time()
+        gw = self.gw
+        if gw.present and self.lost_at < 0 and gw.writes and gw.writes[-1].get("failed"):
+            # a failed write makes the driver drop the connection although the device node is still there
+            self.lost_at = gw.writes[-1]["now"]
+            lim = self.sc.get("reconnect_limit")
+            self.returned_in_time = lim is None or lim >= 1
+        if not gw.present and self.lost_at < 0:
+            self.lost_at = now
+            ar = self.sc.get("auto_return")
+            if ar is not None:
+                self.time_triggers.append([now + ar, "return"])
+                if self.sc.get("repeat"):
+                    self.time_triggers.append([now + ar + 2.25, "lose"])
+                    self.time_triggers.append([now + ar + 2.25 + ar, "return"])
+                self.time_triggers.sort()
+            lim = self.sc.get("reconnect_limit")
+            iv = self.sc.get("reconnect_interval", 1)
+            # would the device be back before the reconnect attempts run out?
+            self.returned_in_time = (lim is None) or (ar is not None and ar < lim * iv)
         while self.time_triggers and self.time_triggers[0][0] <= now + 1e-12:
             self.gw.apply(self.time_triggers.pop(0)[1])
         while self.observes and self.observes[0][0] <= now + 1e-12:
@@ -122,7 +143,7 @@ class Run:
                 ev.set()
             t = self.tasks.get(name)
             cc = c.get("cancel")
-            if cc and t is not None and not t.done() and not c.get("_cancelled") and self._cond(cc, now):
+            if cc and t is not None and not t.done() and not c.get("_cancelled") and c.get("_started") and self._cond(cc, now):
                 c["_cancelled"] = True
                 t.cancel()
         return [self.gw.fd] if self.gw.readable() else []
@@ -239,9 +260,10 @@ class Run:
     # -- callers ---------------------------------------------------------------------------------
     async def caller(self, name, c):
         await self.events[name].wait()
+        self.callers[name]["_started"] = True
         d = self.driver
         cmds = [make_command(k, n) for k, n in c["unit"]]
-        res = {"results": [], "exc": "none", "closed": -1}
+        res = {"results": [], "exc": "none", "closed": -1, "t0": round(self.loop.time(), 6), "t1": -1}
         self.callers[name]["_desc"] = [describe_command(x) for x in cmds]
         kw = {}
         if self.kind in ("tridonic", "hasseb") and "exceptions" in c:
@@ -263,6 +285,7 @@ class Run:
         if name in self.closed_seqs:
             g = self.closed_seqs[name]
             res["closed"] = 1 if g.gi_frame is None else 0
+        res["t1"] = round(self.loop.time(), 6)
         self.callers[name]["_res"] = res
 
     async def main(self):
@@ -293,8 +316,13 @@ class Run:
             if sc.get("idle", 0):
                 await asyncio.sleep(sc["idle"])
         # tail: after everything is quiet (and the device is back) further sends must all work
-        tail = {"n": 0, "ok": 0, "exc": "none", "wrong": 0}
+        tail = {"n": 0, "ok": 0, "exc": "none", "wrong": 0, "start": round(self.loop.time(), 6)}
         if sc.get("tail_sends", 0):
+            # let the fault scenario play out completely (device back or reconnect attempts exhausted) first
+            if sc.get("settle", 0):
+                await asyncio.sleep(sc["settle"])
+            tail["status_len"] = len(self.status)
+            tail["opens_len"] = len(getattr(self.gw, "openlog", []))
             self.gw.apply("return")
             self.gw.apply("write_ok")
             self.gw.per_boundary = None
@@ -315,16 +343,36 @@ class Run:
         if not self.sc.get("no_wait_connected"):
             await self.wait_connected()
 
+    async def _ensure_connected(self):
+        d = self.driver
+        if self.kind not in ("tridonic", "hasseb"):
+            return
+        for _ in range(400):
+            if d.connected.is_set():
+                return
+            # after "failed" the application has to ask for a new connection itself
+            if d._reconnect_task is None and d._f is None:
+                d.connect()
+            await asyncio.sleep(0.05)
+
     async def tail(self, tail, n):
         d = self.driver
-        if self.kind in ("tridonic", "hasseb"):
-            await d.connected.wait()
-        base = self.gw.ncmd
+        # let a loss that has just happened be noticed before the final sends start
+        await asyncio.sleep(0.2)
+        await self._ensure_connected()
         for i in range(n):
             tail["n"] += 1
             cmd = make_command("q16", i)
-            r = await d.send(cmd)
+            try:
+                r = await asyncio.wait_for(d.send(cmd), timeout=5)
+            except (asyncio.TimeoutError, Exception) as e:  # noqa: one retry after making sure we are connected
+                if i > 3:
+                    raise
+                await self._ensure_connected()
+                r = await asyncio.wait_for(d.send(cmd), timeout=5)
             want = self.gw.cmdlog[-1]["outcome"] if self.gw.cmdlog else None
+            if want is not None and want[0] == "err":
+                want = ["none", 0] if self.kind in ("luba", "sci") else ["err", 255]
             got = describe_result(r)
             if got["k"] == "resp" and want is not None and got["raw"] == list(want) and self.gw.cmdlog[-1]["frame"] == cmd.frame.as_integer:
                 tail["ok"] += 1
@@ -371,12 +419,13 @@ def run_scenario(sc):
         lock_free = -1
     callers = []
     for name, c in r.callers.items():
-        res = c.get("_res", {"results": [], "exc": "pending", "closed": -1})
+        res = c.get("_res", {"results": [], "exc": "pending", "closed": -1, "t0": -1, "t1": -1})
         t = r.tasks.get(name)
         callers.append({"name": name, "mode": c.get("mode", "send"), "unit": c.get("_desc", []),
                         "results": res["results"], "exc": res["exc"], "closed": res["closed"],
-                        "done": 1 if (t is not None and t.done()) else 0,
-                        "exceptions": 1 if c.get("exceptions", sc.get("exceptions", True)) else 0})
+                        "done": 1 if (t is not None and t.done()) else 0, "t0": res.get("t0", -1), "t1": res.get("t1", -1),
+                        "cancelled": 1 if c.get("_cancelled") else 0,
+                        "exceptions": 1 if (c.get("mode") == "sequence" or c.get("exceptions", sc.get("exceptions", True))) else 0})
     try:
         pending = [t for t in asyncio.all_tasks(loop) if not t.done()]
         for t in pending:
@@ -399,4 +448,6 @@ def run_scenario(sc):
     return {"driver": sc["driver"], "wire": r.gw.cmdlog, "writes": r.gw.writes if sc.get("keep_writes") else [],
             "nwrites": len(r.gw.writes), "callers": callers, "lock_free": lock_free, "status": r.status,
             "traffic": [[n, v] for n, v in sorted(r.traffic.items())], "out": out, "info": info,
+            "opens": getattr(r.gw, "openlog", []), "present_at_end": 1 if r.gw.present else 0,
+            "lost_at": round(r.lost_at, 6), "returned_in_time": r.returned_in_time,
             "now": round(loop.time(), 6), "iterations": loop.iterations}
